@@ -18,6 +18,9 @@ META = {
     "assumptions": ["finite floats as reals (costs only compared)"],
 }
 
+from engine import monitor as _monitor          # noqa: E402
+META["audit"] = lambda: _monitor.audit(('H1', 'H7'))
+
 
 def best_of(agents):
     m = agents[0].cost
